@@ -698,6 +698,22 @@ def known_match(case: dict, detail: Any) -> Optional[str]:
                 again = impl_eval(case['_t'], cleaned, case['_oracle'])
                 if not again.get('errs') and py_equal(again.get('value'), case['_back']):
                     return 'C02-F4'
+        # same site, the list carries a facet of its own (length family): the items that became the empty binary vanish
+        # from the text that is written, which the list facet then refuses.  Rule: as above, but the text without
+        # that white space is refused by facets only and its lax value is the decoded value without its empty items
+        if L.has_py_ws(text) and _contains_list(d) and names0 & {'hexBinary', 'base64Binary'} and _list_level_facets(d) and \
+                case.get('_t') is not None and '_value' in case and 'error' in detail and isinstance(case['_value'], list):
+            ep_ws = L.PY_ONLY_WS.replace('\xa0', '')
+            from elementpath.datatypes import AbstractBinary
+            nonempty_vals = [x for x in case['_value'] if not (isinstance(x, AbstractBinary) and len(x) == 0)]
+            for drop in ((lambda i: i.strip(ep_ws)), (lambda i: ''.join(c for c in i if c not in ep_ws))):
+                cleaned = ' '.join(x for x in (drop(i) for i in re.split('[ \t\n\r]+', text)) if x)
+                if L.has_py_ws(cleaned.replace('\xa0', '')):
+                    continue
+                again = impl_eval(case['_t'], cleaned, case['_oracle'])
+                if again.get('errs') and all(e == 'validation' for e in again['errs']) and \
+                        len(nonempty_vals) < len(case['_value']) and py_equal(again.get('value'), nonempty_vals):
+                    return 'C02-F4'
         return None
     if kind == 'spec-valid-impl-invalid' and _has_digit_facets_anywhere(d) and any(_ZERO7.match(i) for i in items):
         return 'C02-F5'
@@ -751,14 +767,16 @@ def _member_type(t: Any, v11: bool, m: Any) -> Any:
     return _MEMBER_TYPES[key]
 
 
-def union_member_finding(case: dict, value: Any, sval: Any) -> Optional[str]:
-    """A union (possibly restricted, possibly the item type of a list) that the XSD reading and the implementation
-    both accept, with values of different members.  Exact rule: take the members in the order of the built type;
-    at the FIRST member where the verdict of the reading and the verdict of the real member type on the item differ,
-    that difference on that member alone must be matched by `known_match` (C02-F6/F7/F11: a date/time or duration
-    member accepts or refuses the literal), and the value the union returned for the item must be the value of the
-    first member the implementation accepts.  Items on which the two agree on the member must denote the XSD value.
-    Anything else is not explained (None -> reported as a failure)."""
+def union_member_finding(case: dict, value: Any, sval: Any, allow_f4: bool = False) -> Optional[str]:
+    """A union (possibly restricted, possibly the item type of a list) on which the XSD reading and the
+    implementation take different members (both accept with values of different members, or one of them finds no
+    member).  Exact rule: take the members in the order of the built type; at the FIRST member where the verdict of
+    the reading and the verdict of the real member type on the item differ, that difference on that member alone
+    must be matched by `known_match` (C02-F6/F7/F11: a date/time or duration member accepts or refuses the literal)
+    or, with `allow_f4` (text with Python-only white space), by the elementpath rule of C02-F4 applied to that member
+    alone; and the value the union returned for the item must be the value of the first member the implementation
+    accepts.  Items on which the two agree on the member must denote the XSD value.  Anything else is not explained
+    (None -> reported as a failure)."""
     t, oracle = case.get('_t'), case.get('_oracle')
     if t is None or oracle is None:
         return None
@@ -788,24 +806,32 @@ def union_member_finding(case: dict, value: Any, sval: Any) -> Optional[str]:
                 r = spec_type(m, v11, item) if fid is None else None
                 if r == 'unjudged':
                     return None
-                mv, errs = _member_type(t, v11, m).decode(item, validation='lax', datetime_types=True, binary_types=True)
-                ok = not errs
+                mt = _member_type(t, v11, m)
+                mi = impl_eval(mt, item, oracle)
+                if 'exc' in mi:
+                    return None
+                ok = not mi['errs']
                 if ok and first_impl is None:
-                    first_impl = (mv,)
+                    first_impl = (mi['value'],)
                 if fid is None and r is not None and r[0] != ok:
                     kind = 'spec-valid-impl-invalid' if r[0] else 'spec-invalid-impl-valid'
-                    fid = known_match({'v': case.get('v'), 'desc': m, 'text': item}, {'kind': kind, 'what': 'verdict'})
+                    mcase = {'v': case.get('v'), 'desc': m, 'text': item, '_t': mt, '_oracle': oracle}
+                    fid = known_match(mcase, {'kind': kind, 'what': 'verdict'})
+                    if fid is None and allow_f4 and L.has_py_ws(item) and _f4_elementpath_strip(mcase, mi):
+                        fid = 'C02-F4'
                     if fid is None:
                         return None
                 elif fid is None and ok:
                     agreed = True       # same member for both
                 if first_impl is not None and (fid is not None or agreed):
                     break
-            if first_impl is None or not py_equal(first_impl[0], val):
+            # (no member for either of them: an item refused by both, nothing to explain; a union that the
+            #  implementation refuses keeps a lax value that is not compared)
+            if first_impl is not None and not py_equal(first_impl[0], val):
                 return None
             if fid is not None:
                 found.append(fid)
-            elif value_denotes(val, sv_item, item):
+            elif agreed and value_denotes(val, sv_item, item):
                 return None             # same member, wrong value: not a union effect
     except Exception:   # noqa  (member not buildable on its own / escapes: leave it to the failure report)
         return None
@@ -998,6 +1024,7 @@ def one_case(ctx: Ctx, oracle: L.Oracle, batch: Optional[Batch], v11: bool, labe
             if fid is None and pyws:
                 # candidate for C02-F4: settled below against the model run with Python's white-space class
                 case['_pyws_pending'] = detail
+                case['_sval'] = sval
             elif fid:
                 ctx.known_hit(fid, _pub(case), detail)
                 case['_known'] = fid
@@ -1016,6 +1043,7 @@ def one_case(ctx: Ctx, oracle: L.Oracle, batch: Optional[Batch], v11: bool, labe
                     case['_known'] = fid
                 elif L.has_py_ws(text):
                     case['_pyws_pending'] = {'kind': 'value', 'what': bad}
+                    case['_sval'] = sval
                 else:
                     ctx.failure('decoded value does not denote the XSD value of the text', _pub(case), bad)
     # ---- round trip on the real code ----
@@ -1036,6 +1064,7 @@ def one_case(ctx: Ctx, oracle: L.Oracle, batch: Optional[Batch], v11: bool, labe
         except Exception as e:    # noqa
             oracle.take()
             detail = {'kind': 'roundtrip', 'value': repr(impl['value']), 'error': repr(e)[:200]}
+            case['_value'] = impl['value']
             fid = known_match(case, detail)
             if fid:
                 ctx.known_hit(fid, _pub(case), detail)
@@ -1082,8 +1111,9 @@ def _settle_pyws_without_model(ctx: Ctx, case: dict, t: Any, text: str, oracle: 
     cleaned = ''.join(' ' if c in L.PY_ONLY_WS else c for c in text)
     a = impl_eval(t, cleaned, oracle)
     b = impl_eval(t, text, oracle)
-    if (a.get('errs') == b.get('errs') and a.get('val') == b.get('val')) or _f4_elementpath_strip(case, b):
-        ctx.known_hit('C02-F4', _pub(case), case.get('_pyws_pending'))
+    fid = 'C02-F4' if (a.get('errs') == b.get('errs') and a.get('val') == b.get('val')) else _f4_settle(case, b)
+    if fid:
+        ctx.known_hit(fid, _pub(case), case.get('_pyws_pending'))
     else:
         ctx.failure('accepted/refused against the lexical space and facets of the type', _pub(case), case['_pyws_pending'])
 
@@ -1102,6 +1132,28 @@ def _zero7_case(case: dict) -> bool:
     d, text = case['desc'], case['text']
     items = L.xsd_collapse(''.join(' ' if c in L.PY_ONLY_WS else c for c in text)).split(' ')
     return _has_digit_facets_anywhere(d) and any(_ZERO7.match(i) for i in items)
+
+
+def _list_level_facets(d: Any) -> bool:
+    """a restriction with facets whose base (through restrictions) is a list"""
+    while d[0] == 'r':
+        b = d[1]
+        while b[0] == 'r':
+            b = b[1]
+        if b[0] == 'l' and any(k != 'whiteSpace' for k in d[2]):
+            return True
+        d = d[1]
+    return False
+
+
+def _f4_settle(case: dict, impl: dict) -> Optional[str]:
+    """a difference on a text with Python-only white space: the elementpath sites of C02-F4 on the whole type, or (a
+    union) on the member at which the reading and the implementation part (`union_member_finding`)"""
+    if _f4_elementpath_strip(case, impl):
+        return 'C02-F4'
+    if _contains_union(case['desc']) and 'value' in impl:
+        return union_member_finding(case, impl['value'], case.get('_sval'), allow_f4=True)
+    return None
 
 
 def _f4_elementpath_strip(case: dict, impl: dict) -> bool:
@@ -1145,7 +1197,11 @@ def _f4_elementpath_strip(case: dict, impl: dict) -> bool:
         # stripped by elementpath to the EMPTY binary value; apart from those items the outcome is the same
         if _contains_list(d) and names & {'hexBinary', 'base64Binary'} and isinstance(impl.get('val'), dict) and \
                 isinstance(again.get('val'), dict) and 'l' in impl['val'] and 'l' in again['val'] and \
-                again.get('errs') == impl.get('errs'):
+                (again.get('errs') == impl.get('errs') or
+                 # a facet on the LIST (length family, enumeration) sees one item more per vanished item: the facet
+                 # errors may differ, the decode errors of the items may not
+                 (_list_level_facets(d) and [e for e in again.get('errs', []) if e != 'validation'] ==
+                  [e for e in impl.get('errs', []) if e != 'validation'])):
             nonempty = [i for i in raw_items if i]
             got = impl['val']['l']
             if len(got) == len(nonempty):
@@ -1169,8 +1225,9 @@ def flush(ctx: Ctx, batch: Batch, drv: Driver) -> None:
         want = {'val': impl['val'], 'errs': impl['errs']}
         mx = _proj(m)
         if mx == want:
-            if case.get('_pyws_pending') and _f4_elementpath_strip(case, impl):
-                ctx.known_hit('C02-F4', _pub(case), case.get('_pyws_pending'))
+            fid = _f4_settle(case, impl) if case.get('_pyws_pending') else None
+            if fid:
+                ctx.known_hit(fid, _pub(case), case.get('_pyws_pending'))
             elif case.get('_pyws_pending'):
                 ctx.failure('accepted/refused against the lexical space and facets of the type', _pub(case),
                             case['_pyws_pending'])
@@ -1270,7 +1327,9 @@ def run(ctx: Ctx, driver_ok: bool) -> None:
 
 def _run(ctx: Ctx, drv: Optional[Driver], oracle: L.Oracle, widen: bool = False) -> None:
     from xmlschema.validators.builtins import BUILTIN_TYPES
-    n_types = ctx.pick(140, 500) * (2 if widen else 1)
+    # (search() runs this family at the thorough sizes without the model: the thorough tier itself explores the same
+    #  number of seeded types, so that search() never reaches a space the tiers have not been through)
+    n_types = ctx.pick(140, 1000)
     n_mut_builtin = ctx.pick(300, 2500)
     n_mut_derived = ctx.pick(20, 80)
     for v11 in (False, True):
@@ -1711,7 +1770,9 @@ def witness_fails(w: dict) -> bool:
 
 
 def search(ctx: Ctx) -> None:
-    """a tie broke without a failing input: explore the larger family, property evaluation only"""
+    """a tie broke without a failing input: the family of the thorough tier (same generators, same sizes, same known-
+    finding matchers through `one_case`), property evaluation only (no model: the white-space findings are settled by
+    `_settle_pyws_without_model`).  On the unchanged tree it reports nothing (tools/search_clean.py C02)."""
     oracle = L.Oracle()
     oracle.install()
     saved = ctx.tier
